@@ -164,10 +164,15 @@ pub(crate) fn calculate_t<F: PrimeField>(
     // With $\delta = \frac{1-\rho}{2}$, the expreesion is
     // $2 * (\frac{1+\rho}{2})^t + \frac{n}{F} < 2^(-\lambda)$.
 
-    let field_bits = F::MODULUS_BIT_SIZE as i32;
     let sec_param = sec_param as i32;
 
-    let residual = codeword_len as f64 / 2.0_f64.powi(field_bits);
+    // |F| as a float (the modulus itself, not the next power of two above it)
+    let field_size = F::MODULUS
+        .as_ref()
+        .iter()
+        .rev()
+        .fold(0.0_f64, |acc, limb| acc * 2.0_f64.powi(64) + *limb as f64);
+    let residual = codeword_len as f64 / field_size;
     let rhs = (2.0_f64.powi(-sec_param) - residual).log2();
     if !(rhs.is_normal()) {
         return Err(Error::InvalidParameters("For the given codeword length and the required security guarantee, the field is not big enough.".to_string()));
